@@ -302,7 +302,48 @@ func (m *Machine) exec(obj interface{}) (out Outcome) {
 	}()
 	o, err := m.E.Execute(obj)
 	out.Out, out.Err = o, err
+	if err == nil {
+		if bad := malformedResult(o, 0); bad != "" {
+			out.Panic = bad // not a value a host can use: treated like a crash by every comparison
+		}
+	}
 	return
+}
+
+// malformedResult: a result the host cannot use without crashing - nil, or a container holding a nil object
+func malformedResult(o object.Object, depth int) (bad string) {
+	defer func() {
+		if r := recover(); r != nil {
+			bad = fmt.Sprintf("the result cannot be inspected: %v", r)
+		}
+	}()
+	if o == nil {
+		if depth == 0 {
+			return "Execute returned (nil, nil)"
+		}
+		return "the result holds a nil object"
+	}
+	if depth > 6 {
+		return ""
+	}
+	switch v := o.(type) {
+	case *object.Array:
+		for _, e := range v.Elements {
+			if b := malformedResult(e, depth+1); b != "" {
+				return b
+			}
+		}
+	case *object.Hash:
+		for _, p := range v.Pairs {
+			if b := malformedResult(p.Key, depth+1); b != "" {
+				return b
+			}
+			if b := malformedResult(p.Value, depth+1); b != "" {
+				return b
+			}
+		}
+	}
+	return ""
 }
 
 func parsePairs(raw json.RawMessage) [][2]json.RawMessage {
